@@ -37,7 +37,7 @@ func genVacancyPlan(t *rapid.T) *Plan {
 			// the candidate's election is ended by cancelling the context passed to Start (documented as a
 			// graceful stop) and the same object is started again: it must be a full candidate again
 			at := odd(time.Duration(rapid.Int64Range(int64(2*h), int64(4*h)).Draw(t, "cc_at")))
-			p.Timeline = append(p.Timeline, Action{At: at, Kind: ActCancelCtx, Inst: i},
+			p.Timeline = append(p.Timeline, Action{At: at, Kind: ActCancelCtx, Inst: i, NoWait: rapid.Bool().Draw(t, "cc_nowait")},
 				Action{At: at + odd(time.Duration(rapid.Int64Range(1, int64(h)).Draw(t, "cc_gap"))), Kind: ActStart, Inst: i})
 		}
 		if rapid.IntRange(0, 3).Draw(t, "transient") == 0 {
